@@ -367,6 +367,33 @@ fn run_row(case: &Value, k: &Keys) -> Vec<(String, Value, Value)> {
           }
         }
       }
+      // a signature of the wrong length is refused whatever the extra / missing bytes are: the correct signature cut
+      // short, or followed by one more byte (a recovery id, zero, 0xff) or by itself
+      if s(&tok["sig"]) == "wrong_length" && s(&tok["algAt"]) == "protected" && s(&tok["keyAlg"]) != "other" && skip == 0 {
+        let mut good = tok.clone();
+        good["sig"] = json!("over_SI");
+        let gb = build(&good, k);
+        if let Ok(sig) = decode_b64(&gb.sig_seg) {
+          let mut variants: Vec<Vec<u8>> = vec![sig[..sig.len() - 1].to_vec(), [sig.clone(), sig.clone()].concat()];
+          for extra in [0x00u8, 0x01, 0x02, 0x03, 0x1b, 0x1c, 0xff] {
+            variants.push([sig.clone(), vec![extra]].concat());
+          }
+          let text = String::from_utf8(gb.token.clone()).unwrap_or_default();
+          for v in variants {
+            let forged = text.replacen(&gb.sig_seg, &encode_b64(&v), 1);
+            let det = gb.detached.as_deref();
+            if let Ok(it) = decode_nth(ser, forged.as_bytes(), det, 0) {
+              let r = match alg_of(s(&tok["alg"])) {
+                JwsAlgorithm::EdDSA => it.verify(&EdDSAJwsVerifier::default(), &k.public_jwk(s(&tok["alg"]))),
+                _ => it.verify(&EcDSAJwsVerifier::default(), &k.public_jwk(s(&tok["alg"]))),
+              };
+              if r.is_ok() {
+                diffs.push(("verified_unbound/signature_length".into(), json!({"signature_bytes": v.len()}), json!("verified")));
+              }
+            }
+          }
+        }
+      }
       let want_verified = s(&case["outcome"]) == "verified";
       match (&verified, want_verified) {
         (Ok(d), true) => {
